@@ -44,20 +44,35 @@ inline Val binop(State &S, unsigned opc, Val a, Val b, int &needConcr) {
       return r;
     }
     if (a.k == Val::PTR && b.k == Val::INT && opc == Instruction::And) {
-      // alignment masks: (p + a-1) & ~(a-1): keep region, offset range widened downward
+      // alignment masks: (p + a-1) & ~(a-1)
       Val r = a;
       r.kb = KnownBits(64);
-      if (b.isConst()) {
+      if (b.isConst() && a.reg >= 0) {
         APInt m = b.constVal().sextOrTrunc(64);
         unsigned tz = (~m).countTrailingOnes();
-        if ((~m).isMask(tz) && tz < 16) {
-          // region base alignment is unknown: result offset in [off - (2^tz - 1), off]
+        if ((~m).isMask(tz) && tz <= 6) {
+          const Region &R = S.regions[a.reg];
+          if (R.alignRoot >= 0 && a.r.isSingleElement()) {
+            const Root &AR = S.roots[R.alignRoot];
+            if (AR.lo != AR.hi) { needConcr = R.alignRoot; return Val::unk(); }
+            int64_t mis = (int64_t)AR.lo, off = a.r.getSingleElement()->getSExtValue();
+            int64_t al = ((mis + off) & ~((1LL << tz) - 1)) - mis;
+            return Val::ptr(a.reg, al);
+          }
+          // base alignment unknown: result offset in [off - (2^tz - 1), off]
           r.r = ConstantRange::getNonEmpty(a.r.getLower() - APInt(64, (1u << tz) - 1), a.r.getUpper());
           r.root = -1;
           return r;
         }
+        // low-bit extraction (p & 63): value of the low bits of the address
+        if (m.isMask() && m.getActiveBits() <= 6 && S.regions[a.reg].alignRoot >= 0 && a.r.isSingleElement()) {
+          const Root &AR = S.roots[S.regions[a.reg].alignRoot];
+          if (AR.lo != AR.hi) { needConcr = S.regions[a.reg].alignRoot; return Val::unk(); }
+          int64_t v = ((int64_t)AR.lo + a.r.getSingleElement()->getSExtValue()) & (int64_t)m.getZExtValue();
+          return Val::cint(64, (uint64_t)v);
+        }
       }
-      return Val::unk();
+      return b.k == Val::INT && b.isConst() && b.constVal().isMask() ? Val::range(64, ConstantRange::getNonEmpty(APInt(64, 0), b.constVal().zextOrTrunc(64) + 1), P_OTHER) : Val::unk();
     }
     return Val::unk();
   }
